@@ -12,6 +12,7 @@ from __future__ import annotations
 import ast
 import enum
 import json
+import os
 from pathlib import Path
 
 import _griffe.encoders as ENC
@@ -309,14 +310,15 @@ for _g, (_free, _idxs, _step, _focus) in GROUPS.items():
 # ------------------------------------------------------------------------------------------ CLI dump
 @obligation(
     pid="C08", name="cli_dump", timeout=tiered(200, 600),
-    pre=lambda full, f_l, f_e, al_l: -1 <= f_l <= 1 and -1 <= f_e <= 1 and -1 <= al_l <= 1,
-    shards=lambda: [(f"full={fu}", None, [dict(full=fu)]) for fu in (False, True)],
+    pre=lambda full, out, f_l, f_e, al_l: -1 <= f_l <= 1 and -1 <= f_e <= 1 and -1 <= al_l <= 1,
+    shards=lambda: [(f"full={fu},output={o}", None, [dict(full=fu, out=o)]) for fu in (False, True) for o in ("stream", "file", "file-per-package")],
     drives=[__import__("_griffe.cli", fromlist=["dump"]).dump],
-    bounds={"package": "the C08 tree with symbolic function span and alias line", "mode": "minimal / full"}, value_symbolic=["f_l", "f_e", "al_l"], selectors=["dump mode"],
+    bounds={"package": "the C08 tree with symbolic function span and alias line", "mode": "minimal / full", "output": "a stream, a single file, or one file per package (`{package}` template)"},
+    value_symbolic=["f_l", "f_e", "al_l"], selectors=["dump mode, output route"],
     stubs=STUBS + ["cli._load_packages returns the in-memory tree (no disk access)"], must_cover=["dumped"],
-    grid=lambda seed: [dict(full=fu, f_l=1, f_e=1, al_l=1) for fu in (False, True)],
+    grid=lambda seed: [dict(full=fu, out=o, f_l=1, f_e=1, al_l=1) for fu in (False, True) for o in ("stream", "file", "file-per-package")],
 )
-def cli_dump(full: bool, f_l: int, f_e: int, al_l: int) -> bool:
+def cli_dump(full: bool, out: str, f_l: int, f_e: int, al_l: int) -> bool:
     """`griffe dump` emits exactly {package: as_dict(full)} through JSONEncoder for each requested package."""
     import io
     import _griffe.cli as CLI
@@ -330,14 +332,26 @@ def cli_dump(full: bool, f_l: int, f_e: int, al_l: int) -> bool:
         orig = CLI._load_packages
         CLI._load_packages = lambda *a, **k: _FakeLoader(mod)
         buf = io.StringIO()
+        import shutil
+        import tempfile
+
+        tmp = tempfile.mkdtemp(prefix="verif_c08_")
         try:
-            rc = CLI.dump(["m"], output=buf, full=full)
+            target = buf if out == "stream" else os.path.join(tmp, "out.json" if out == "file" else "out-{package}.json")
+            rc = CLI.dump(["m"], output=target, full=full)
+            if rc != 0:
+                return f"dump returned {rc}"
+            if out == "stream":
+                got = json.loads(buf.getvalue())
+            elif out == "file":
+                got = json.load(open(os.path.join(tmp, "out.json")))
+            else:
+                got = {"m": json.load(open(os.path.join(tmp, "out-m.json")))}  # one file per package holds that package's serialisation
         finally:
             CLI._load_packages = orig
-        if rc != 0:
-            return f"dump returned {rc}"
+            shutil.rmtree(tmp, ignore_errors=True)
         want = {"m": json.loads(mod.as_json(full=full))}
-        return None if json.loads(buf.getvalue()) == want else "dump output differs from the serialisation of the package"
+        return None if got == want else f"dump output ({out}, full={full}) differs from the serialisation of the package"
 
     err = _native(run)
     cover("dumped")
